@@ -152,7 +152,8 @@ func ParseVia(via string) (*Via, error) {
 	result := &Via{}
 
 	for _, param := range strings.Split(via, ",") {
-		viaParam, err := parseViaParam(param)
+		// blanks are allowed around the comma between two via-parms
+		viaParam, err := parseViaParam(strings.Trim(param, " \t"))
 		if err != nil {
 			return nil, err
 		}
